@@ -80,7 +80,7 @@ def run(ctx):
     ctx.assume("add of histograms with different edges must not return a result (any exception is accepted); 'equal "
                "edges' is the documented approximate equality (lena.math.isclose with edges_abs_tol=0, edges_rel_tol=1e-9 "
                "unless given), checked at magnitudes 2^-990 .. 2^990 with perturbations that are exact in floating point")
-    pool = concurrent.futures.ThreadPoolExecutor(max_workers=7)
+    pool = concurrent.futures.ThreadPoolExecutor(max_workers=10)
     try:
         # ---- design level (+ exports)
         f_mc1 = pool.submit(ctx.mc, "HistOps", "HistOps_%s.cfg" % tag, coverage=True,
@@ -91,6 +91,10 @@ def run(ctx):
         f_h1 = pool.submit(ctx.export, "HistOps", "HistOps_export.cfg", min_records=3000)
         f_h2 = pool.submit(hl.export_generate, ctx, "HistOps", "HistOps_hist_export.cfg",
                            num=5000 if ctx.thorough else 800, depth=8, min_records=500)
+        # every order of scale() / scale(recompute) / scale(s) / set_nevents / c = a.add(b) (go on with c), length 4 (5)
+        f_mc3 = pool.submit(ctx.mc, "HistOps", "HistOps_seq.cfg", coverage=True, must_cover=("GetScale", "Scale", "SetNevents", "Add"))
+        f_h3 = pool.submit(ctx.export, "HistOps", "HistOps_seq_export.cfg", min_records=3000)
+        f_g3 = pool.submit(ctx.export, "Graph", "Graph_seq_export.cfg", min_records=1000)
         f_g1 = pool.submit(ctx.export, "Graph", "Graph_export.cfg", min_records=3000)
         f_g2 = pool.submit(hl.export_generate, ctx, "Graph", "Graph_hist_export.cfg",
                            num=4000 if ctx.thorough else 600, depth=6, min_records=400)
@@ -108,13 +112,13 @@ def run(ctx):
             h12.replay_convert(ctx, rec, k, report)
             ctx.case(["convert", rec], nontrivial=len(rec["conv"]["cells"]) + len(rec["conv"]["rows"]) + len(rec["conv"]["cols"]) > 0)
         ctx.sample({"spec_conversion": crecs[len(crecs) // 2]})
-        for fut, what in ((f_h1, "histogram_op"), (f_h2, "histogram_history")):
+        for fut, what in ((f_h1, "histogram_op"), (f_h2, "histogram_history"), (f_h3, "histogram_scale_sequence")):
             hrecs = fut.result()
             for k, rec in enumerate(hrecs):
                 h12.replay_histops(ctx, rec, k, report, extra)
                 ctx.case([what, rec], nontrivial=True)
             ctx.sample({"spec_" + what: hrecs[len(hrecs) // 2]})
-        for fut, what in ((f_g1, "graph_op"), (f_g2, "graph_history")):
+        for fut, what in ((f_g1, "graph_op"), (f_g2, "graph_history"), (f_g3, "graph_scale_sequence")):
             grecs = fut.result()
             for k, rec in enumerate(grecs):
                 h12.replay_graph(ctx, rec, k, report)
@@ -122,6 +126,7 @@ def run(ctx):
             ctx.sample({"spec_" + what: grecs[len(grecs) // 3]}, limit=8)
         f_mc1.result()
         f_mc2.result()
+        f_mc3.result()
         f_trace.result()
     finally:
         pool.shutdown(wait=True)
